@@ -22,7 +22,7 @@ def main():
                 ['secretstore/zz_verif_env.go', 'secretstore/zz_verif_rand.go', 'C01/zz_verif_c01.go'],
                 installers=[crypto.install, crypto.install_proto], init_pkgs=[MOD + '/pkg/errcode'], prelude_pkgname='secretstore')
     P = MOD + '/pkg/secretstore.'
-    names = ('VerifC01RoundTrip', 'VerifC01Insider', 'VerifC01InsiderRetry', 'VerifC01Outsider', 'VerifC01OtherGroup', 'VerifC01Witness')
+    names = ('VerifC01RoundTrip', 'VerifC01Insider', 'VerifC01InsiderRetry', 'VerifC01InsiderPush', 'VerifC01Outsider', 'VerifC01OtherGroup', 'VerifC01Witness')
     chk.load([P + n for n in names])
     cfg = {'timeout_ms': 60000, 'unwind': 12, 'dec_as_term': True}
     jobs = []
@@ -30,6 +30,8 @@ def main():
         jobs.append(Job(P + 'VerifC01RoundTrip', (gt,), cfg=cfg))
         jobs.append(Job(P + 'VerifC01Insider', (gt,), cfg=cfg))
         jobs.append(Job(P + 'VerifC01Outsider', (gt,), cfg=cfg))
+        if t == 'thorough' or gt == 3:
+            jobs.append(Job(P + 'VerifC01InsiderPush', (gt,), cfg=cfg, max_paths=200000))
         for mid in ((0, 1) if (t == 'thorough' or gt == 3) else (0,)):
             jobs.append(Job(P + 'VerifC01InsiderRetry', (gt, mid), cfg=cfg))
     jobs.append(Job(P + 'VerifC01OtherGroup', (), cfg=cfg))
